@@ -15,6 +15,10 @@
     the matching entry (`<=`), when add_term tests negligibility before erase, when a branch, a bound or the order of the
     statements changes -- whether or not a numeric run happens to notice.
 
+    PV.TermList.add_term (the model of Properties_C01.v) is the retry loop the source has: the agreement of section 3 needs no
+    hypothesis (it needed `at most one stored term like the added one` while the model still had the former find / erase / insert
+    form; that form is kept as PV.TermList.add_term_findform, see add_term_forms_differ).
+
     [..._src] : PV.LehmannGen.  A part's result is its term list (Pole, Residue); [blk] = (block of HpartOuter, of HpartInner). *)
 Require Import Bool List Arith ZArith Reals Ring_theory Field_theory.
 From Coquelicot Require Import Coquelicot.
@@ -86,35 +90,63 @@ Proof.
 Qed.
 Print Assumptions add_term_src_is_retry_loop.
 
-(** PV.TermList.add_term -- the model the theorems of Properties_C01.v are about -- is the find / erase / insert form.  On a set
-    satisfying the invariant the two agree when at most one stored term is like the new one ... *)
+(** PV.TermList.add_term -- the model the theorems of Properties_C01.v are about -- is that loop, with ghost events: the
+    source's add_term returns the model's sequence for EVERY comparator, stored sequence and added term, and is never cut short *)
 Theorem add_term_src_agrees_with_model :
-  forall (P C : Type) (comp : P -> P -> bool) (negl : C -> nat -> bool) (cadd : C -> C -> C),
-  (forall a, comp a a = false) -> (forall a b c, comp a b = true -> comp b c = true -> comp a c = true) ->
-  forall (t : term P C) (l : list (term P C)), sorted_sep P C comp l -> unambiguous1 P C comp t l = true ->
+  forall (P C : Type) (comp : P -> P -> bool) (negl : C -> nat -> bool) (cadd : C -> C -> C)
+         (t : term P C) (l : list (term P C)),
   add_term_ref (term P C) (tcomp P C comp) (tplus P C cadd) (tnegl P C negl) (length l) t l =
   (true, fst (add_term P C comp negl cadd t l)).
 Proof. exact LehmannGenProofs.add_term_ref_is_termlist. Qed.
 Print Assumptions add_term_src_agrees_with_model.
 
+(** ... step for step, for every bound of the loop ... *)
+Theorem add_term_src_agrees_with_model_loop :
+  forall (P C : Type) (comp : P -> P -> bool) (negl : C -> nat -> bool) (cadd : C -> C -> C)
+         (n : nat) (t : term P C) (l : list (term P C)),
+  add_term_ref (term P C) (tcomp P C comp) (tplus P C cadd) (tnegl P C negl) n t l =
+  (fin_ok (snd (snd (add_term_loop P C comp negl cadd n t l))), fst (add_term_loop P C comp negl cadd n t l)).
+Proof. exact LehmannGenProofs.add_term_ref_is_loop. Qed.
+Print Assumptions add_term_src_agrees_with_model_loop.
+
+(** ... and so do sequences of calls *)
+Theorem add_terms_src_agrees_with_model :
+  forall (P C : Type) (comp : P -> P -> bool) (negl : C -> nat -> bool) (cadd : C -> C -> C) (ts l : list (term P C)),
+  add_terms_ref P C comp negl cadd ts l = fst (add_terms P C comp negl cadd ts l).
+Proof. exact LehmannGenProofs.add_terms_ref_is_termlist. Qed.
+Print Assumptions add_terms_src_agrees_with_model.
+
+(** A documented fact about the FORMER form of add_term (find / erase(key) / insert, PV.TermList.add_term_findform; the model
+    before it followed the repair b3c7635): on a set satisfying the invariant it agrees with the present form when at most one
+    stored term is like the new one ... *)
+Theorem add_term_findform_agrees :
+  forall (P C : Type) (comp : P -> P -> bool) (negl : C -> nat -> bool) (cadd : C -> C -> C),
+  (forall a, comp a a = false) -> (forall a b c, comp a b = true -> comp b c = true -> comp a c = true) ->
+  forall (t : term P C) (l : list (term P C)), sorted_sep P C comp l -> unambiguous1 P C comp t l = true ->
+  fst (add_term P C comp negl cadd t l) = add_term_findform P C comp negl cadd t l.
+Proof. exact LehmannGenProofs.add_term_findform_agrees. Qed.
+Print Assumptions add_term_findform_agrees.
+
 (** ... for a total comparator (the exact form) always ... *)
-Theorem add_term_src_agrees_with_model_total :
+Theorem add_term_findform_agrees_total :
   forall (P C : Type) (comp : P -> P -> bool) (negl : C -> nat -> bool) (cadd : C -> C -> C),
   (forall a b, comp a b = false -> comp b a = true) ->
-  forall (n : nat) (t : term P C) (l : list (term P C)),
-  add_term_ref (term P C) (tcomp P C comp) (tplus P C cadd) (tnegl P C negl) n t l = (true, fst (add_term P C comp negl cadd t l)).
-Proof. exact LehmannGenProofs.add_term_ref_is_termlist_total. Qed.
-Print Assumptions add_term_src_agrees_with_model_total.
+  forall (t : term P C) (l : list (term P C)),
+  fst (add_term P C comp negl cadd t l) = add_term_findform P C comp negl cadd t l.
+Proof. exact LehmannGenProofs.add_term_findform_agrees_total. Qed.
+Print Assumptions add_term_findform_agrees_total.
 
-(** ... and they are different functions otherwise: a new pole closer than the tolerance to two stored poles is merged into the
-    lower neighbour by the model and into the upper one by the source (poles 0, 15 stored, tolerance 10, new pole 8) *)
+(** ... and they are different functions otherwise: a new pole closer than the tolerance to two stored poles was merged into the
+    lower neighbour by the former form and is merged into the upper one by the source and the model (poles 0, 15 stored,
+    tolerance 10, new pole 8) *)
 Theorem add_term_forms_differ :
   let l := [(0, 1); (15, 1)] in
   let t := (8, 1) in
   sorted_sep nat nat ncomp l /\
-  fst (add_term nat nat ncomp (fun _ _ => false) Nat.add t l) = [(0, 2); (15, 1)] /\
+  add_term_findform nat nat ncomp (fun _ _ => false) Nat.add t l = [(0, 2); (15, 1)] /\
   add_term_ref (nat * nat) (tcomp nat nat ncomp) (tplus nat nat Nat.add) (tnegl nat nat (fun _ _ => false)) (length l) t l
     = (true, [(0, 1); (15, 2)]) /\
+  add_term nat nat ncomp (fun _ _ => false) Nat.add t l = ([(0, 1); (15, 2)], EvChain [((15, 1), (15, 2))] FinInserted) /\
   unambiguous1 nat nat ncomp t l = false.
 Proof. exact LehmannGenProofs.add_term_forms_differ. Qed.
 Print Assumptions add_term_forms_differ.
@@ -141,21 +173,24 @@ Theorem gf_part_exact_src :
 Proof. exact LehmannGenProofsGF.gf_part_exact_src. Qed.
 Print Assumptions gf_part_exact_src.
 
-(** tolerance form: when no added term is like two stored ones the source computes the model's term list, and the value it
-    returns obeys the bound  |value - Lehmann sum| <= sum_{dropped} |R/(z-P)| + sum_{events} |error of the event| *)
+(** the source's compute returns the model's term list, whatever the tolerances *)
+Theorem gf_part_compute_src_agrees :
+  forall (K : Type) (NO : numops K) (lenient : bool) (T : tols K) (blk : nat * nat) (inp : part_in K) (o : part_out K),
+  gf_part_compute K NO gf_chase_guarded lenient T inp = WDone o ->
+  gf_part_compute_src K NO lenient T blk inp = WDone (o_terms K o).
+Proof. exact LehmannGenProofsGF.gf_part_compute_src_agrees. Qed.
+Print Assumptions gf_part_compute_src_agrees.
+
+(** tolerance form: the source computes the model's term list, and the value it returns obeys the bound
+    |value - Lehmann sum| <= sum_{dropped} |R/(z-P)| + sum_{events} |error of the event|    (no hypothesis on the added terms) *)
 Theorem gf_part_tolerance_src :
   forall (K : Type) (NO : numops K) (kinv : K -> K),
   field_theory (n0 K NO) (n1 K NO) (nadd K NO) (nmul K NO) (nsub K NO) (nopp K NO) (ndiv K NO) kinv (@eq K) ->
   forall norm : K -> R,
   (forall a b, (norm (nadd K NO a b) <= norm a + norm b)%R) -> (forall a, norm (nopp K NO a) = norm a) -> norm (n0 K NO) = 0%R ->
-  forall (T : tols K),
-  (forall a, gf_compare K NO (t_compare K T) a a = false) ->
-  (forall a b c, gf_compare K NO (t_compare K T) a b = true -> gf_compare K NO (t_compare K T) b c = true ->
-                 gf_compare K NO (t_compare K T) a c = true) ->
-  forall (lenient : bool) (blk : nat * nat) (inp : part_in K), part_wf K inp ->
+  forall (T : tols K) (lenient : bool) (blk : nat * nat) (inp : part_in K), part_wf K inp ->
   forall (o : part_out K) (beta z : K),
   gf_part_compute K NO gf_chase_guarded lenient T inp = WDone o ->
-  gf_unambiguous K NO T (kept K (o_raw K o)) = true ->
   gf_part_compute_src K NO lenient T blk inp = WDone (o_terms K o) /\
   (norm (nsub K NO (gf_part_value_src K NO (o_terms K o) beta z) (gf_part_spec K NO inp z)) <=
    rsum (dropped K (o_raw K o)) (fun t => norm (fz K NO z t)) +
